@@ -324,7 +324,14 @@ def check(prop, tier, seed, no_build=False):
                                                  nontrivial=cfg.get('nontrivial', nontrivial_default),
                                                  keep_prefix=cfg.get('keep_prefix', 0))
             for extra in cfg.get('extra', []):
-                violations += extra(prop, tier, rng, result)
+                try:
+                    violations += extra(prop, tier, rng, result)
+                except C.SessionAbort as e:
+                    # the implementation hung or died in the middle of an enumeration: that is a violation with
+                    # the script so far as its replay
+                    lines = getattr(e, 'lines', [])
+                    violations.append({'engine': 'mvcc', 'kind': 'abort', 'script': lines,
+                                       'diff': {'line': len(lines) - 1, 'op': lines[-1][:200] if lines else '?', 'impl': str(e)[:200], 'model': '<an answer>'}})
     finally:
         pass
     nvdrive_copy = C.NVDRIVE
